@@ -195,9 +195,9 @@ Section CanonSem.
         remember (fst (cz false o n)) as n' eqn:En'. remember (fst (cz false o d)) as d' eqn:Ed'.
         apply (Inv_of_result (EFrac n d)
                  (if is_err n' then n' else if is_err d' then d' else if is_one d' then n'
-                  else if expr_eqb n' d' then EOne else truediv n' d')); [cbn [cz]; rewrite <- En', <- Ed'; reflexivity| |].
+                  else if expr_eqb n' d' then EOne else post_quotient (truediv n' d'))); [cbn [cz]; rewrite <- En', <- Ed'; reflexivity| |].
         + destruct (is_err n'); [exact Han|]. destruct (is_err d'); [exact Had|].
-          destruct (is_one d'); [exact Han|]. destruct (expr_eqb n' d'); [reflexivity|]. apply PA_truediv; assumption.
+          destruct (is_one d'); [exact Han|]. destruct (expr_eqb n' d'); [reflexivity|]. apply PA_post_quotient. apply PA_truediv; assumption.
         + destruct (is_err n') eqn:En; [intros Hne; congruence|]. destruct (is_err d') eqn:Ed; [intros Hne; congruence|].
           specialize (Hdn eq_refl). specialize (Hdd eq_refl).
           destruct (is_one d') eqn:E1.
@@ -205,7 +205,15 @@ Section CanonSem.
           destruct (expr_eqb n' d') eqn:E2.
           { intros _ env0. apply expr_eqb_true in E2. cbn [eval]. rewrite <- (Hdn env0), E2, (Hdd env0).
             pose proof (eval_pos d Hokd Hnzd env0) as Hp. unfold Qdiv. rewrite Qmult_inv_r; [reflexivity|]. intros F. rewrite F in Hp. discriminate. }
-          intros _ env0. rewrite eval_truediv. cbn [eval]. rewrite (Hdn env0), (Hdd env0). reflexivity.
+          intros _ env0.
+          assert (Hq : eval m (truediv n' d') env0 == eval m (EFrac n d) env0).
+          { rewrite eval_truediv. cbn [eval]. rewrite (Hdn env0), (Hdd env0). reflexivity. }
+          rewrite <- Hq. destruct (truediv n' d') as [| | |a b| | | |] eqn:Eq; try reflexivity. cbn [post_quotient].
+          destruct (expr_eqb a b) eqn:Eab; [|reflexivity]. apply expr_eqb_true in Eab. subst b.
+          assert (Hp : 0 < eval m (EFrac a a) env0).
+          { rewrite Hq. cbn [eval]. pose proof (eval_pos n Hokn Hnzn env0) as P1. pose proof (eval_pos d Hokd Hnzd env0) as P2.
+            unfold Qdiv. apply Qmult_lt_0_compat; [exact P1|apply Qinv_lt_0_compat; exact P2]. }
+          cbn [eval] in *. unfold Qdiv in *. rewrite Qmult_inv_r; [reflexivity|]. intros F. rewrite F in Hp. rewrite Qmult_0_l in Hp. discriminate.
       - (* One *)
         apply (Inv_of_result EOne EOne); [reflexivity|reflexivity|]. intros _ env0. reflexivity.
     Qed.
